@@ -12,6 +12,7 @@ import re
 import shutil
 import subprocess
 import sys
+import threading
 import time
 
 VERIF = os.path.dirname(os.path.dirname(os.path.abspath(__file__)))
@@ -65,12 +66,23 @@ def run(cmd, cwd=None, env=None, timeout=None, check=True, capture=True):
 _built = False
 
 
+_build_lock = threading.Lock()
+_built_race = False
+
+
 def build_harness(race=False):
-    """(Re)build the harness against /repo's current working tree with hooks enabled."""
-    global _built
+    """(Re)build the harness against /repo's current working tree with hooks enabled (once per process and flavour)."""
+    with _build_lock:
+        return _build_harness(race)
+
+
+def _build_harness(race):
+    global _built, _built_race
     out = BIN + ("-race" if race else "")
-    if _built and os.path.exists(out) and not race:
+    if os.path.exists(out) and (_built_race if race else _built):
         return out
+    if race:
+        _built_race = True
     os.makedirs(os.path.dirname(out), exist_ok=True)
     shutil.copyfile(os.path.join(REPO, "go.sum"), os.path.join(HARNESS, "go.sum"))
     # the harness module replaces the memefish module by the tree under test (default /repo)
